@@ -838,6 +838,34 @@ func cases(tier, path string) {
 			}
 		}
 	}
+	// ... and payloads around every size constant of the implementation's own sources (a cap on the unpacked size, a chunk
+	// size: boundaries no format knows), and 1 MiB / 2 MiB whatever the sources say: a vector<int> whose packed object is
+	// a few bytes larger than the constant (compressible: the packed form stays small)
+	{
+		sizes := map[int]bool{1 << 20: true}
+		top := 1<<20 + 1<<19
+		if os.Getenv("VERIF_TIER") == "thorough" {
+			sizes[1<<21] = true
+			top = 1 << 22
+		}
+		for _, l := range vc.SourceLiterals(32769, int64(top), "internal/encoding/tl", "internal/mtproto/objects", "internal/mtproto/messages", "internal/transport", ".") {
+			sizes[l] = true
+		}
+		var order []int
+		for l := range sizes {
+			order = append(order, l)
+		}
+		sort.Ints(order)
+		for _, l := range order {
+			n := l/4 + 1
+			v := append(le32(0x1cb5c415), le32(uint32(n))...)
+			for i := 0; i < n; i++ {
+				v = append(v, le32(uint32(7000+i%1000))...)
+			}
+			packed := append(le32(crcGzip), putMessage(gzipBytes(v))...)
+			w.decU(append(append(le32(0xf35c6d01), []byte{1, 0, 0, 0, 2, 0, 0, 0}...), packed...), []reflect.Type{reflect.TypeOf([]int32{})}, "gzip-huge")
+		}
+	}
 	// gzip_packed around a bare vector: the packed message is decoded with the caller's hints
 	for _, ht := range hintTypes {
 		v := g.Value(ht, 1, true)
